@@ -434,7 +434,10 @@ _exotic_regname = st.one_of(
     st.text(alphabet="abc-._~!$&'()*+,;=%20", min_size=1, max_size=10),
     st.sampled_from(['example.com.', 'a%2Eb', 'a,b', 'x;y=z', '(host)', "it's", '%E4%BE%8B.test', '']),
 )
-ports = st.one_of(st.integers(0, 65535).map(str), st.sampled_from(['80', '443', '8080', '0080', '00443', '0', '65536', '99999999999']))
+# port = *DIGIT (RFC 3986): no upper bound on the number of digits; HUGE_PORT has more digits than CPython converts by default
+HUGE_PORT = '1' + '0' * 4300
+ports = st.one_of(st.integers(0, 65535).map(str), st.sampled_from(['80', '443', '8080', '0080', '00443', '0', '65536', '99999999999',
+                                                                    '0' * 40 + '81', '9' * 4300, HUGE_PORT]))
 
 
 def host_values():
@@ -483,7 +486,8 @@ def nodes():
     name = st.one_of(ipv4.map(lambda h: ('ipv4', h)), ipv4.map(lambda h: ('ipv4', h)),
                      ipv6.filter(lambda h: '%' not in h).map(lambda h: ('ipv6', h)),
                      st.just(('unknown', 'unknown')), _obf.map(lambda h: ('obfnode', h)))
-    port = st.one_of(st.none(), st.none(), st.integers(0, 65535).map(str), _obf)
+    port = st.one_of(st.none(), st.none(), st.integers(0, 65535).map(str), _obf,
+                     st.integers(0, 9).map(lambda i: HUGE_PORT if i == 0 else '0' * i + '80'))
     return st.builds(build, name, port)
 
 
